@@ -669,8 +669,8 @@ class DeclRun(DeclRunStream):
     oracles = ("C05",)
     threads = (2, 2, 3, 4, 8)
     strategies = ("fifo", "lifo", "random", "random")
-    quick_cases = 170
-    quick_seconds = 26
+    quick_cases = 120
+    quick_seconds = 16
     thorough_cases = 2000
     thorough_seconds = 300
     decl_opts = dict(p_group=0.75, p_base=0.3, p_shared=0.2)
